@@ -103,11 +103,21 @@ pub fn read_ndjson(path: &str) -> Vec<Value> {
             std::fs::File::open(path).unwrap_or_else(|e| panic!("open {path}: {e}")),
         ))
     };
-    rd.lines()
-        .map(|l| l.unwrap())
-        .filter(|l| !l.trim().is_empty())
-        .map(|l| serde_json::from_str(&l).unwrap_or_else(|e| panic!("bad json {l}: {e}")))
-        .collect()
+    // Accepts plain ndjson and raw TLC output, where each payload line is a JSON string literal
+    // (PrintT of ToJson) and everything else is TLC chatter.
+    let mut out = Vec::new();
+    for l in rd.split(b'\n') {
+        let l = l.unwrap();
+        let l = String::from_utf8_lossy(&l);
+        let t = l.trim();
+        if t.starts_with('{') {
+            out.push(serde_json::from_str(t).unwrap_or_else(|e| panic!("bad json {t}: {e}")));
+        } else if t.starts_with("\"{") {
+            let inner: String = serde_json::from_str(t).unwrap_or_else(|e| panic!("bad json string {t}: {e}"));
+            out.push(serde_json::from_str(&inner).unwrap_or_else(|e| panic!("bad inner json {inner}: {e}")));
+        }
+    }
+    out
 }
 
 pub struct Out {
